@@ -17,7 +17,7 @@ Lemma orphan_survives_stop_pinned : exists tr s,
   run (restart_lts false true 4) (init_state true) tr = Some s /\ mpcs s = MReturned /\ alive_children s = 1%nat.
 Proof.
   exists (race_trace ++ [WStep 0; WStep 0; WStep 0; TStep; TStep; StopCall; MStep; MStep; MStep; MStep; MStep;
-                         Exit 2%nat; MStep; MStep; MStep; MStep; WStep 2; MStep]).
+                         Exit 2%nat; MStep; MStep; MStep; MStep; WStep 2; WStep 2; MStep]).
   eexists. vm_compute. repeat split.
 Qed.
 
@@ -26,10 +26,31 @@ Qed.
 Lemma alive_after_stop_pinned : exists tr s,
   run (restart_lts false true 4) (init_state true) tr = Some s /\ mpcs s = MReturned /\ alive_children s = 1%nat.
 Proof.
-  exists [Trigger; TStep; TStep; TStep; TStep; TStep; StopCall; MStep; MStep; MStep; MStep; WStep 0; MStep].
+  exists [Trigger; TStep; TStep; TStep; TStep; TStep; StopCall; MStep; MStep; MStep; MStep; WStep 0; WStep 0; MStep].
   eexists. vm_compute. repeat split.
 Qed.
 
 (* the repaired protocol blocks the second restarter on the lock: the race schedule is not a run *)
 Lemma race_trace_not_serial : run (restart_lts true true 4) (init_state true) race_trace = None.
 Proof. vm_compute. reflexivity. Qed.
+
+(* A watcher that does not read its stop flag again after poll(): watcher 0 passes its flag test, an
+   event restart stops it and kills child 0 (Exit 0 follows the signal), starts child 1; watcher 0 then
+   sees child 0 dead and restarts once more: child 1 is killed, child 2 started - three children for one
+   trigger although no child exited by itself. *)
+Definition norecheck_trace : list label :=
+  [WStep 0%nat; WStep 0] ++ [Trigger] ++ repeat TStep 5 ++ [Exit 0%nat] ++ repeat TStep 8 ++
+  repeat (WStep 0%nat) 6 ++ [Exit 1%nat] ++ repeat (WStep 0%nat) 8.
+
+Lemma norecheck_double_restart : exists tr s,
+  run (restart_lts_norecheck true true 4) (init_state true) tr = Some s /\
+  count_trigger tr = 1%nat /\ spawns s = 3%nat /\ admitted s = 2%nat /\ children s = [false; false; true].
+Proof. exists norecheck_trace. eexists. vm_compute. repeat split. Qed.
+
+(* the modelled watcher (flag read again at WNoticed) stays silent on the same schedule *)
+Lemma recheck_single_restart : exists s,
+  run (restart_lts true true 4) (init_state true)
+      ([WStep 0%nat; WStep 0] ++ [Trigger] ++ repeat TStep 5 ++ [Exit 0%nat] ++ repeat TStep 8 ++ repeat (WStep 0%nat) 2)
+    = Some s /\ spawns s = 2%nat /\ admitted s = 1%nat /\ children s = [false; true] /\
+  watcher_done s 0 = true.
+Proof. eexists. vm_compute. repeat split. Qed.
